@@ -233,7 +233,10 @@ func (obj Object) CompletionAtPos(ctx context.Context, pos hcl.Pos) []lang.Candi
 		Start:    pos,
 		End:      eType.SrcRange.End,
 	}
-	editRange = objectItemPrefixBasedEditRange(remainingRange, fileBytes, trimmedBytes)
+	// the edit range starts where the prefix starts, which includes
+	// any whitespace between the prefix and the position
+	rawPrefixBytes := leftBytes[bytes.LastIndex(leftBytes, trimmedBytes):]
+	editRange = objectItemPrefixBasedEditRange(remainingRange, fileBytes, rawPrefixBytes)
 
 	return objectAttributesToCandidates(ctx, prefix, obj.cons.Attributes, declared, editRange)
 }
